@@ -154,6 +154,13 @@ def raw_records(seed):
         stages.append(("write-open-chunks", f3, np.concatenate([c[:] for c in ch.data_chunks()])))
     with TdmsFile.open(io.BytesIO(out.getvalue()), raw_timestamps=True) as f4:
         stages.append(("defragment-open-slice", f4, f4["g"]["c"][:]))
+    arr1 = f1["g"]["c"][:]
+    stages.append(("write-read-numpy-index", f1, [arr1[np.int64(i)] for i in range(len(pairs))]))
+    with TdmsFile.open(io.BytesIO(buf.getvalue()), raw_timestamps=True) as f5:
+        ch = f5["g"]["c"]
+        picked = [ch[i] for i in range(len(pairs))]              # one by one: later segments are reached through NumPy integers
+        stages.append(("write-open-index", f5, picked))
+        stages.append(("write-open-index-negative", f5, [ch[i - len(pairs)] for i in range(len(pairs))]))
     for stage, f, data in stages:
         if len(data) != len(pairs):
             raise AssertionError("raw timestamp channel of %d values read back with %d (%s)" % (len(pairs), len(data), stage))
@@ -163,6 +170,7 @@ def raw_records(seed):
                              "sec_back": limbs(int(t.seconds if hasattr(t, "seconds") else t["seconds"]) + BIAS_S),
                              "frac_back": limbs(int(t.second_fractions if hasattr(t, "second_fractions")
                                                     else t["second_fractions"])),
+                             "scalar": bool(isinstance(t, TdmsTimestamp) or "index" not in stage),
                              "dbg": [stage, src, s, fr]})
     return recs
 
